@@ -20,7 +20,7 @@ theorem readIntermediate_safe (padding : Bool) (s : Bytes) :
   intro payload s2 hp
   split
   · apply safe_slice
-    · omega
+    · simp only [Cfg.spec]; omega
     · intro _ _; exact safe_ok _ _ _
   · exact safe_ok _ _ _
 
@@ -29,7 +29,7 @@ theorem readIntermediate_plain_safe (s : Bytes) :
   unfold readIntermediate
   apply safe_readLen (by omega)
   intro n s1 hn0 hn
-  have hn' : n ≤ 16777216 := by simp [Cfg.spec] at hn; omega
+  have hn' : n ≤ 16777216 := by simp at hn; omega
   apply safe_make (by omega)
   apply safe_alloc (by omega)
   apply safe_readN
@@ -43,7 +43,7 @@ theorem readPadded_safe (s : Bytes) : Safe (16777216 + 3) (readPadded Cfg.spec s
   · rename_i a p rest heq
     rw [heq] at h
     apply safe_slice
-    · omega
+    · simp only [Cfg.spec]; omega
     · intro _ _; exact ⟨rfl, h.2⟩
   · exact h
 
@@ -53,15 +53,17 @@ theorem readAbridged_safe (s : Bytes) : Safe 16777216 (readAbridged Cfg.spec s) 
   apply safe_readN
   intro b0 s1 _
   have hcont : ∀ (n : Nat) (s2 : Bytes),
-      Safe 16777216 (if Cfg.spec.abrGuard = true ∧ n * 4 > Cfg.spec.maxMsg then Res.err (.badLen (n * 4))
-        else Res.make ((n : Int) * 4) fun m => Res.alloc m <| Res.readN m s2 fun payload s3 => Res.ok payload s3) := by
+      Safe 16777216 (if Cfg.spec.abrRejects n = true then Res.err (.badLen (Cfg.spec.abrBytes n).toNat)
+        else Res.make (Cfg.spec.abrBytes n) fun m => Res.alloc m <| Res.readN m s2 fun payload s3 => Res.ok payload s3) := by
     intro n s2
     split
     · exact safe_err _ _
     · rename_i h
       have hn : n * 4 ≤ 16777216 := by simp [Cfg.spec] at h; omega
+      have hb : Cfg.spec.abrBytes n = ((n * 4 : Nat) : Int) := by simp [Cfg.spec]
+      rw [hb]
       apply safe_make (by omega)
-      apply safe_alloc (by omega)
+      apply safe_alloc (by simp only [Int.toNat_natCast]; omega)
       apply safe_readN
       intro _ _ _; exact safe_ok _ _ _
   simp only
@@ -70,6 +72,9 @@ theorem readAbridged_safe (s : Bytes) : Safe 16777216 (readAbridged Cfg.spec s) 
     intro l3 s2 _
     exact hcont _ _
   · exact hcont _ _
+
+theorem buf0_length (n e : Nat) : (leN 4 n ++ leN 4 n ++ zeros e).length = 8 + e := by
+  simp only [List.length_append, leN_length, zeros_length]
 
 theorem readFull_safe (crc : Bytes → Nat) (seq : Int) (s : Bytes) :
     Safe (16777216 + 16) (readFull Cfg.spec crc seq s) := by
@@ -81,15 +86,15 @@ theorem readFull_safe (crc : Bytes → Nat) (seq : Int) (s : Bytes) :
   · exact safe_err _ _
   · rename_i hg
     have h12 : 12 ≤ n := by simp [Cfg.spec] at hg; omega
+    simp only [Cfg.spec] at *
     apply safe_alloc (by omega)
     apply safe_make (by omega)
     apply safe_alloc (by omega)
     apply safe_slice
-    · simp only [zeros_length]; omega
+    · rw [buf0_length]; omega
     · intro innerView hv
       apply safe_readN
       intro inner s2 hinner
-      simp only
       split
       · exact safe_err _ _
       · split
@@ -100,12 +105,12 @@ theorem readFull_safe (crc : Bytes → Nat) (seq : Int) (s : Bytes) :
             split
             · exact safe_err _ _
             · apply safe_slice
-              · simp only [List.length_append, leN_length, zeros_length]; omega
+              · simp only [List.length_append, List.length_take, List.length_drop, buf0_length]; omega
               · intro crcIn _
                 split
                 · exact safe_err _ _
                 · apply safe_slice
-                  · simp only [List.length_append, leN_length, zeros_length]; omega
+                  · simp only [List.length_append, List.length_take, List.length_drop, buf0_length]; omega
                   · intro payload hpl
                     apply safe_slice
                     · omega
@@ -124,5 +129,14 @@ theorem read_safe (crc : Bytes → Nat) (k : Kind) (seq : Int) (s : Bytes) :
   | intermediate => exact mono (by omega) (readIntermediate_plain_safe s)
   | padded => exact mono (by omega) (readPadded_safe s)
   | full => exact readFull_safe crc seq s
+
+theorem read_readerPart (c : Cfg) (crc : Bytes → Nat) (k : Kind) (seq : Int) (s : Bytes) :
+    read c crc k seq s = read c.readerPart crc k seq s := by
+  cases k <;> rfl
+
+theorem readAbridged_readerPart (c : Cfg) (s : Bytes) : readAbridged c s = readAbridged c.readerPart s := rfl
+theorem readIntermediate_readerPart (c : Cfg) (b : Bool) (s : Bytes) :
+    readIntermediate c b s = readIntermediate c.readerPart b s := rfl
+theorem readPadded_readerPart (c : Cfg) (s : Bytes) : readPadded c s = readPadded c.readerPart s := rfl
 
 end TdModel.Codec
